@@ -111,6 +111,7 @@ def probe_conversions(cur, where, fail, counts):
 
 def audit_seq(seq, flags, fails, counts, settings):
     I.set_flags(settings, flags[0], flags[1])
+    cur_settings = settings
     rng = random.Random(seq["seed"])
     case = {"type": "seq", "flags": list(flags), "seq": seq}
 
@@ -184,6 +185,9 @@ def audit_seq(seq, flags, fails, counts, settings):
         if z is None:
             return
         counts["accepted"] += 1
+        if st["op"] in ("in_units", "helper") and wf(x):
+            to = st["to"] if st["op"] == "in_units" else HELPER_TARGETS[st["name"]]
+            check_conversion_numbers(x, z, to, cur_settings, f"step {i} {st['op']}", m, fail, counts)
         # (h) indexing with any integer key (Python int or numpy integer) is get_month
         if st["op"] == "index":
             index_vs_month(x, z, I.make_key(x, st)[1], m, i, fail, counts)
@@ -309,11 +313,99 @@ def audit_preds(grid, fails, counts, settings):
                     audit_pred_case(name, xv, None, kw, labs, fails, counts, settings)
 
 
+def boundary_values(d):
+    """magnitudes around every tolerance boundary of a 10^-d rounding (0.5 and 1 units), both signs, none ON a boundary"""
+    u = 10.0 ** (-d)
+    mags = [0.3, 0.49, 0.51, 0.7, 0.99, 1.01, 1.6, 2.4]
+    return [0.0] + [sg * m * u for m in mags for sg in (1.0, -1.0)]
+
+
+def audit_pred_boundaries(fails, counts, settings):
+    """unary predicates with one nutrient placed around a tolerance boundary (the others zero, or clearly non-zero),
+    single value AND one-month series, all four flag settings, plus an independent reading of all_equals_zero"""
+    labs = ("billion kcals", "thousand tons", "thousand tons")
+    unary = [n for n in I.PRED_METHOD if n not in I.BINARY]
+    for name in unary:
+        kws = [{}]
+        if name == "all_zero":
+            kws = [{}, {"rounding_decimals": 9}, {"rounding_decimals": 3}, {"rounding_decimals": 0}]
+        if name == "all_ge_zero":
+            kws = [{}, {"threshold": 2.0}, {"threshold": 1e-9}]
+        for kw in kws:
+            d = kw.get("rounding_decimals", 9)
+            vals = boundary_values(d)
+            if "threshold" in kw:
+                t = kw["threshold"]
+                vals = vals + [-t * (1 + 1e-6), -t * (1 - 1e-6), t]
+            for pos in range(3):
+                for other in (0.0, 5.0):
+                    for v in vals:
+                        xv = [other] * 3
+                        xv[pos] = v
+                        n0 = len(fails)
+                        audit_pred_case(name, xv, None, kw, labs, fails, counts, settings)
+                        if name == "all_zero" and len(fails) == n0:
+                            for fl in FLAGS:
+                                I.set_flags(settings, fl[0], fl[1])
+                                counted = [xv[0]] + ([xv[1]] if fl[0] else []) + ([xv[2]] if fl[1] else [])
+                                want = all(abs(c) * 10 ** d < 0.5 for c in counted)
+                                got = call_pred(Food(np.array([xv[0]]), np.array([xv[1]]), np.array([xv[2]]),
+                                                     *[L + EACH for L in labs]), name, None, kw)
+                                counts["pred_pairs"] += 1
+                                if got != want:
+                                    fails.append({"key": "C11:predicate-wrong@Food.all_equals_zero",
+                                                  "what": f"all_equals_zero({kw}) include_fat={fl[0]} include_protein={fl[1]} on "
+                                                          f"{xv}: {got}, rounding to {d} decimals gives {want}",
+                                                  "case": {"type": "pred", "pred": name, "x": xv, "y": None, "kw": kw,
+                                                           "labels": list(labs), "flags": list(fl)}})
+                                    break
+
+
+# defining formulas of the unit multipliers (relative to billion kcals / thousand tons / thousand tons), per nutrient
+def multipliers(cur):
+    kd, fd, pd, pop = cur["kcals_daily"], cur["fat_daily"], cur["protein_daily"], cur["population"]
+    out = [{"billion kcals": 1.0, "billion people fed": 1 / (kd * 30), "percent people fed": 100 / (kd * 30 * pop / 1e9),
+            "million dry caloric tons": 1 / 4000.0, "kcals per person per day": 1e9 / (30 * pop)}]
+    for g in (fd, pd):
+        monthly = g / 1e6 * 30 / 1000
+        out.append({"thousand tons": 1.0, "million tons": 1 / 1000.0, "billion people fed": 1 / monthly / 1e9,
+                    "percent people fed": 100 / (monthly * pop),
+                    "effective kcals per person per day": 1 / monthly / 1e9 * (1e9 / pop * kd),
+                    "grams per person per day": 100 / (monthly * pop) * g / 100})
+    return out
+
+
+def strip_sfx(L):
+    for sf in (EACH, PER):
+        if L.endswith(sf):
+            return L[: -len(sf)]
+    return L
+
+
+def check_conversion_numbers(x, z, to, cur, where, m, fail, counts):
+    """(j) every nutrient is converted with ITS OWN source and target unit"""
+    mult = multipliers(cur)
+    src = [strip_sfx(L) for L in labels(x)]
+    if any(a not in t for a, t in zip(src, mult)) or any(b not in t for b, t in zip(to, mult)):
+        return
+    counts["conversion_number_cases"] += 1
+    for nm, xa, za, a, b, t in zip(("kcals", "fat", "protein"), (x.kcals, x.fat, x.protein), (z.kcals, z.fat, z.protein),
+                                   src, to, mult):
+        want = np.asarray(xa, dtype=float) * (t[b] / t[a])
+        got = np.asarray(za, dtype=float)
+        if want.shape != got.shape or np.any(np.abs(got - want) > 1e-9 * np.maximum(np.abs(want), 1e-300)):
+            fail("C11:conversion-wrong-number@" + m,
+                 f"{where}: {nm} {np.asarray(xa).tolist()} '{a}' -> '{b}' gives {got.tolist()}, the units' definitions give "
+                 f"{want.tolist()} (targets {to}, requirements {cur})")
+            return
+
+
 def run(payload):
     settings = payload["settings"]
     fails = []
     counts = {k: 0 for k in ("steps", "accepted", "ctor_cases", "ctor_rejected", "unit_check_cases",
-                             "unit_mismatch_cases", "ratio_side_cases", "wf_in_cases", "label_table_cases", "pred_pairs", "index_cases", "settings_probes")}
+                             "unit_mismatch_cases", "ratio_side_cases", "wf_in_cases", "label_table_cases", "pred_pairs", "index_cases", "settings_probes",
+                             "conversion_number_cases")}
     if "replay" in payload:
         c = payload["replay"]
         if c["type"] == "seq":
@@ -329,6 +421,27 @@ def run(payload):
         audit_seq(seq, FLAGS[j % 4], fails, counts, settings)
     grid = [-1.5, 0.0, 2.0] if payload.get("grid") == "quick" else [-1.5, 0.0, 0.5, 2.0]
     audit_preds(grid, fails, counts, settings)
+    audit_pred_boundaries(fails, counts, settings)
+    # directed conversions: every pair of DIFFERENT fat / protein target units, every source form
+    kc = ["billion kcals", "billion people fed", "percent people fed", "million dry caloric tons", "kcals per person per day"]
+    fp = ["thousand tons", "million tons", "billion people fed", "percent people fed", "effective kcals per person per day",
+          "grams per person per day"]
+    j = 0
+    for sfx in ("", EACH, PER):
+        for tf, tp in itertools.product(fp, repeat=2):
+            if tf == tp and j % 3:
+                j += 1
+                continue
+            j += 1
+            tk = kc[j % len(kc)]
+            mon = sfx == EACH
+            def v(a):
+                return {"t": "arr", "v": [a, a * 3]} if mon else {"t": "float", "v": a}
+            src_f, src_p = fp[j % 2], fp[(j // 2) % 2]
+            a = {"k": v(640.5), "f": v(12.25), "p": v(7.75), "lk": "billion kcals" + sfx, "lf": src_f + sfx, "lp": src_p + sfx}
+            seq = {"init": a, "steps": [{"op": "in_units", "to": [tk, tf, tp]},
+                                        {"op": "in_units", "to": ["billion kcals", src_p, src_f]}], "seed": 1, "getters": False}
+            audit_seq(seq, FLAGS[j % 4], fails, counts, settings)
     # directed index cases: every key kind x every position (negative too), directly and after a slice
     for kt in ("int", "int64", "int32", "0d", "arange", "argmin"):
         for n in (1, 3, 5):
